@@ -100,8 +100,17 @@ func cmdFilterReplay(args []string) {
 		det := map[string]interface{}{"vector": raw, "cmd": "filter-replay"}
 		in := concretise(v.In)
 		switch v.F {
-		case "widthratio":
-			src := fmt.Sprintf("{%% widthratio %d %d %d %%}", v.In.N, v.Arg.L[0].N, v.Arg.L[1].N)
+		case "widthratio", "widthratio_as":
+			num := func(n int) string { // (a negative number after another argument would read as a subtraction)
+				if n < 0 {
+					return "(" + strconv.Itoa(n) + ")"
+				}
+				return strconv.Itoa(n)
+			}
+			src := fmt.Sprintf("{%% widthratio %s %s %s %%}", num(v.In.N), num(v.Arg.L[0].N), num(v.Arg.L[1].N))
+			if v.F == "widthratio_as" {
+				src = fmt.Sprintf("{%% widthratio %s %s %s as wr %%}{{ wr }}", num(v.In.N), num(v.Arg.L[0].N), num(v.Arg.L[1].N))
+			}
 			o := render(set, src, nil)
 			lo, hi := strconv.Itoa(v.Out.L[0].N), strconv.Itoa(v.Out.L[1].N)
 			if o.class() != "ok" || (o.Out != lo && o.Out != hi) {
